@@ -26,6 +26,7 @@ type GenCfg struct {
 	AcqW     [3]int         // weights of handle acquisition modes 0,1,2
 	CollLimits []uint32     // C12
 	NondetPct int
+	DigRoots  bool // C12: one root map with a generated digester
 }
 
 func weighted(t *rapid.T, w map[string]int, label string) string {
@@ -162,7 +163,11 @@ func (g *GenCfg) genCase(t *rapid.T, prop string) *Case {
 	if len(g.Keys) > 0 {
 		c.Cfg.Keys = rapid.SampledFrom(g.Keys).Draw(t, "keys")
 	}
-	c.Cfg.Roots = append([]RootSpec(nil), g.Roots[rapid.IntRange(0, len(g.Roots)-1).Draw(t, "roots")]...)
+	if g.DigRoots {
+		c.Cfg.Roots = []RootSpec{{K: "map", Addr: 1, TI: 2, Dig: genDigSpec(t)}}
+	} else {
+		c.Cfg.Roots = append([]RootSpec(nil), g.Roots[rapid.IntRange(0, len(g.Roots)-1).Draw(t, "roots")]...)
+	}
 	if len(g.CollLimits) > 0 {
 		c.Cfg.CollSet = true
 		c.Cfg.CollLimit = rapid.SampledFrom(g.CollLimits).Draw(t, "colllimit")
